@@ -253,6 +253,7 @@ def handling_sig(w, lf, _seen=None):
         name = re.sub(r"^(std::iter::Iterator|RT::StreamExt)::next$", "next", name)
         name = re.sub(r"^RT::task::spawn_blocking$", "spawn_blocking", name)
         name = re.sub(r"^std::io::Write::(write_fmt|write_all_vectored)$", "std::io::Write::write_all", name)
+        name = re.sub(r"^std::fs::DirBuilder::create$", "std::fs::create_dir_all", name)     # (recursive is checked by the effect flags)
         cls = "discarded"
         if prop is None:
             prop = propagation_leaves(w, lf)
